@@ -7,6 +7,7 @@ Unknown constructs default to ask. Decisions bubble up (deny > ask > allow).
 
 from __future__ import annotations
 
+import re
 from dataclasses import dataclass, field
 from pathlib import Path
 from typing import Literal
@@ -18,6 +19,16 @@ from dippy.vendor.parable import parse, ParseError
 
 # Redirect targets that are always safe (no file write)
 SAFE_REDIRECT_TARGETS = frozenset({"/dev/null", "-", "/dev/stdout", "/dev/stdin"})
+
+# What bash itself accepts as an assignment prefix: NAME=..., NAME[sub]=..., NAME+=...
+# (unquoted name). Anything else containing "=" is an ordinary word, i.e. a program name.
+_ASSIGNMENT_RE = re.compile(r"[A-Za-z_][A-Za-z0-9_]*(\[[^\]]*\])?\+?=")
+
+
+def _is_assignment_word(word) -> bool:
+    """True if bash treats this (raw, unstripped) word as a variable assignment."""
+    raw = word if isinstance(word, str) else getattr(word, "value", "")
+    return _ASSIGNMENT_RE.match(raw) is not None
 
 
 @dataclass
@@ -233,11 +244,7 @@ def _analyze_command(
     words = [_get_word_value(w) for w in node.words]
     # Skip env var assignments to find base command
     base_idx = 0
-    while (
-        base_idx < len(words)
-        and "=" in words[base_idx]
-        and not words[base_idx].startswith("-")
-    ):
+    while base_idx < len(words) and _is_assignment_word(node.words[base_idx]):
         base_idx += 1
     base = words[base_idx] if base_idx < len(words) else ""
     has_handler = get_handler(base) is not None
@@ -321,7 +328,13 @@ def _analyze_command(
         decisions.append(Decision("allow", "conditional test"))
         return _combine(decisions)
 
-    cmd_decision = _analyze_simple_command(words, config, cwd, remote=remote)
+    if base_idx >= len(words):
+        decisions.append(Decision("allow", "env assignment"))
+        return _combine(decisions)
+
+    cmd_decision = _analyze_simple_command(
+        words[base_idx:], config, cwd, remote=remote
+    )
     decisions.append(cmd_decision)
 
     return _combine(decisions)
@@ -390,16 +403,10 @@ def _analyze_simple_command(
     if not words:
         return Decision("allow", "empty")
 
-    # Skip leading environment variable assignments (FOO=bar)
-    i = 0
-    while i < len(words) and "=" in words[i] and not words[i].startswith("-"):
-        i += 1
-
-    if i >= len(words):
-        return Decision("allow", "env assignment")
-
-    base = words[i]
-    tokens = words[i:]
+    # Leading assignments (FOO=bar cmd) were already stripped by _analyze_command,
+    # using bash's own rule; what arrives here starts with the program name.
+    base = words[0]
+    tokens = words
 
     # 1. Check config rules first (highest priority)
     from dippy.core.config import SimpleCommand, match_command
